@@ -13,6 +13,18 @@ VARIABLES trail, steps
 mcvars == <<svars, trail, steps>>
 
 MCInit == SInit /\ trail = <<>> /\ steps = 0
+
+(* Behaviours may also start from a workbook that already has three sheets, with any of them *)
+(* selected; the trail then begins with the set-up calls that build this state.              *)
+SetupExp(n, k) == [n |-> n, sel |-> k, pick |-> k, row |-> 1, col |-> 1, range |-> <<1, 1, 1, 1>>, cellexact |-> TRUE]
+MCInit3 ==
+  /\ sheets = <<NewView(1), NewView(2), NewView(3)>> /\ nextId = 4
+  /\ sel \in 1..3
+  /\ undoS = <<>> /\ redoS = <<>>
+  /\ steps = 0
+  /\ trail = << [a |-> [op |-> "new_sheet"], expect |-> SetupExp(2, 1)],
+                [a |-> [op |-> "new_sheet"], expect |-> SetupExp(3, 2)],
+                [a |-> [op |-> "sel_sheet", s |-> sel - 1], expect |-> SetupExp(3, sel - 1)] >>
 SmallNext == SNext /\ UNCHANGED <<trail, steps>>
 SmallSpec == MCInit /\ [][SmallNext]_mcvars
 NearEdge(x, last) == x <= 2 \/ x >= last - 1
@@ -49,6 +61,16 @@ BehNext ==
      \/ UndoSheetOp /\ LogOpen([op |-> "undo"])
      \/ RedoSheetOp /\ LogOpen([op |-> "redo"])
 BehSpec == MCInit /\ [][BehNext]_mcvars
+(* sheet-level alphabet only: select a sheet, add / duplicate / delete, undo, redo (hide and move are in BehNext) *)
+BehNextSheets ==
+  /\ steps < MaxSteps /\ steps' = steps + 1
+  /\ \/ \E i \in 1..MaxSheets : SetSheet(i) /\ Log([op |-> "sel_sheet", s |-> i - 1], TRUE)
+     \/ \E i \in 1..MaxSheets : DuplicateSheet(i) /\ Log([op |-> "dup_sheet", s |-> i - 1], TRUE)
+     \/ \E i \in 1..MaxSheets : DeleteSheet(i) /\ LogOpen([op |-> "del_sheet", s |-> i - 1])
+     \/ NewSheet /\ Log([op |-> "new_sheet"], TRUE)
+     \/ UndoSheetOp /\ LogOpen([op |-> "undo"])
+     \/ RedoSheetOp /\ LogOpen([op |-> "redo"])
+BehSpec3 == MCInit3 /\ [][BehNextSheets]_mcvars
 
 Emit == (steps = MaxSteps) => PrintT(<<"BEHAVIOUR", ToJson(trail)>>)
 =============================================================================
